@@ -66,6 +66,48 @@ Proof.
   - destruct Hin as [->|Hin]; [congruence|]. rewrite (H a Hne). specialize (IH Hnd' Hin H). lia.
 Qed.
 
+Lemma sum_dec g g' l k d :
+  NoDup l -> In k l -> (forall x, x <> k -> g' x = g x) -> (g' k + d = g k)%nat ->
+  (sumf g' l + d = sumf g l)%nat.
+Proof. intros A B C D. pose proof (sumf_change g g' l k A B C). lia. Qed.
+
+Lemma sum_inc g g' l k d :
+  NoDup l -> In k l -> (forall x, x <> k -> g' x = g x) -> (g' k = g k + d)%nat ->
+  (sumf g' l = sumf g l + d)%nat.
+Proof. intros A B C D. pose proof (sumf_change g g' l k A B C). lia. Qed.
+
+
+(* ---- interleavings ---- *)
+
+(* l is an interleaving of the line lists [content f], f in files, that keeps
+   each file's order and uses every line exactly once *)
+Inductive Interleave (files : list N) : (N -> list N) -> list line -> Prop :=
+| il_nil content : (forall f, In f files -> content f = []) -> Interleave files content []
+| il_cons content f x r l :
+    In f files -> content f = x :: r -> Interleave files (upd content f r) l ->
+    Interleave files content ((f, x) :: l).
+
+Lemma proj_cons_same f x l : proj f ((f, x) :: l) = x :: proj f l.
+Proof. unfold proj. cbn. rewrite N.eqb_refl. reflexivity. Qed.
+Lemma proj_cons_other f g x l : g <> f -> proj f ((g, x) :: l) = proj f l.
+Proof. unfold proj. cbn. intros H. apply N.eqb_neq in H. rewrite H. reflexivity. Qed.
+
+Lemma interleave_of_proj files l : forall content,
+  (forall f, In f files -> proj f l = content f) ->
+  (forall x, In x l -> In (fst x) files) ->
+  Interleave files content l.
+Proof.
+  induction l as [|[f x] l IH]; intros content HP HF.
+  - apply il_nil. intros f Hf. rewrite <- (HP f Hf). reflexivity.
+  - assert (Hf : In f files) by (apply (HF (f, x)); left; reflexivity).
+    apply (il_cons files content f x (proj f l)); auto.
+    + rewrite <- (HP f Hf). apply proj_cons_same.
+    + apply IH.
+      * intros g Hg. destruct (N.eq_dec g f) as [->|Hne]; [rewrite upd_same; reflexivity|].
+        rewrite upd_other by exact Hne. rewrite <- (HP g Hg). symmetry. apply proj_cons_other. congruence.
+      * intros y Hy. apply HF. right. exact Hy.
+Qed.
+
 Section P.
 Variable files : list N.
 Variable progs : list N.
@@ -218,6 +260,14 @@ Proof.
   - intros l Hl. eapply IP; eauto.
 Qed.
 
+Theorem every_line_once_interleave es s p :
+  run (init content) es = Some s -> done s = true -> In p progs ->
+  Interleave files content (processed s p).
+Proof.
+  intros H Hd Hp. destruct (every_line_once_in_order es s p H Hd Hp) as [A B].
+  apply interleave_of_proj; auto.
+Qed.
+
 (* in every reachable state what a program has processed of a file is a
    prefix of that file *)
 Theorem processed_prefix es s p f :
@@ -235,11 +285,12 @@ Notation rank := (rank files progs).
 Definition gF (s : state) (f : N) : nat :=
   (length (rem s f) * (2 + 2 * length progs) + o2n (fslot s f) (1 + 2 * length progs) + b2n (fclosed s f))%nat.
 Definition gP (s : state) (p : N) : nat := (o2n (vslot s p) 1 + b2n (vclosed s p))%nat.
-Definition gC (s : state) : nat := match cur s with Some (_, pend) => (2 * length pend)%nat | None => 0%nat end.
+Definition gC_of (c : option (line * list N)) : nat := match c with Some (_, pend) => (2 * length pend)%nat | None => 0%nat end.
+Definition gC (s : state) : nat := gC_of (cur s).
 
 Lemma rank_eq s : rank s = (sumf (gF s) files + gC s + sumf (gP s) progs + b2n (lclosed s) + b2n (done s))%nat.
 Proof.
-  unfold Pipeline.rank, gC.
+  unfold Pipeline.rank, gC, gC_of.
   assert (A : forall l, fold_right (fun f a => (length (rem s f) * (2 + 2 * length progs) + o2n (fslot s f) (1 + 2 * length progs) + b2n (fclosed s f) + a)%nat) 0%nat l = sumf (gF s) l).
   { induction l as [|a l IH]; [reflexivity|]. rewrite sumf_cons. cbn [fold_right]. rewrite IH. reflexivity. }
   assert (B : forall l, fold_right (fun p a => (o2n (vslot s p) 1 + b2n (vclosed s p) + a)%nat) 0%nat l = sumf (gP s) l).
@@ -247,66 +298,93 @@ Proof.
   rewrite A, B. reflexivity.
 Qed.
 
+Lemma mk_cur_len l pend : gC_of (mk_cur l pend) = (2 * length pend)%nat.
+Proof. destruct pend; reflexivity. Qed.
+
 Theorem rank_decreases s e s' : Inv s -> step s e = Some s' -> (rank s' < rank s)%nat.
 Proof.
   intros [IC ICu IF IL IV ID IFs IVs IP] H. rewrite !rank_eq. destruct e as [f|f|p0|p0|f| |p0| ]; cbn in H.
   - destruct (rem s f) as [|x r] eqn:R; [discriminate|]. destruct (fslot s f) eqn:Fs; [discriminate|].
     destruct (mem f files && negb (fclosed s f)) eqn:G; [|discriminate]. apply andb_true_iff in G as [G1 G2].
     apply mem_In in G1. inv_step H.
-    pose proof (sumf_change (gF s) (gF (mkS (upd (rem s) f r) (upd (fslot s) f (Some x)) (fclosed s) (cur s) (lclosed s) (vslot s) (processed s) (vclosed s) (done s))) files f files_nodup G1) as S.
-    unfold gF at 1 3 4 in S. cbn in S. rewrite !upd_same, R, Fs in S. cbn in S.
-    assert (E : forall x0, x0 <> f -> gF (mkS (upd (rem s) f r) (upd (fslot s) f (Some x)) (fclosed s) (cur s) (lclosed s) (vslot s) (processed s) (vclosed s) (done s)) x0 = gF s x0).
-    { intros y Hy. unfold gF. cbn. rewrite !upd_other by exact Hy. reflexivity. }
-    specialize (S E). unfold gC, gP in *. cbn in *. unfold gP. cbn. lia.
+    match goal with |- (sumf (gF ?s1) _ + _ + _ + _ + _ < _)%nat => set (s' := s1) end.
+    assert (S : (sumf (gF s') files + 1 = sumf (gF s) files)%nat).
+    { apply (sum_dec _ _ _ f); auto.
+      - intros y Hy. unfold gF, s'. st. rewrite !upd_other by exact Hy. reflexivity.
+      - unfold gF, s'. st. rewrite !upd_same, R, Fs. cbn [length o2n]. lia. }
+    assert (P : sumf (gP s') progs = sumf (gP s) progs) by reflexivity.
+    assert (C : gC s' = gC s) by reflexivity.
+    rewrite P, C. assert (L : lclosed s' = lclosed s) by reflexivity. assert (D : done s' = done s) by reflexivity. rewrite L, D. lia.
   - destruct (fslot s f) as [x|] eqn:Fs; [|discriminate]. destruct (cur s) eqn:Cu; [discriminate|].
     inv_step H. pose proof (IFs _ _ Fs) as Hf.
-    pose proof (sumf_change (gF s) (gF (mkS (rem s) (upd (fslot s) f None) (fclosed s) (mk_cur (f, x) progs) (lclosed s) (vslot s) (processed s) (vclosed s) (done s))) files f files_nodup Hf) as S.
-    unfold gF at 1 3 4 in S. cbn in S. rewrite !upd_same, Fs in S. cbn in S.
-    assert (E : forall x0, x0 <> f -> gF (mkS (rem s) (upd (fslot s) f None) (fclosed s) (mk_cur (f, x) progs) (lclosed s) (vslot s) (processed s) (vclosed s) (done s)) x0 = gF s x0).
-    { intros y Hy. unfold gF. cbn. rewrite !upd_other by exact Hy. reflexivity. }
-    specialize (S E). unfold gC. cbn. rewrite Cu.
-    assert (C : match mk_cur (f, x) progs with Some (_, pend) => (2 * length pend)%nat | None => 0%nat end = (2 * length progs)%nat).
-    { destruct progs; reflexivity. }
-    rewrite C. unfold gP. cbn. fold (gP s). lia.
+    match goal with |- (sumf (gF ?s1) _ + _ + _ + _ + _ < _)%nat => set (s' := s1) end.
+    assert (S : (sumf (gF s') files + (1 + 2 * length progs) = sumf (gF s) files)%nat).
+    { apply (sum_dec _ _ _ f); auto.
+      - intros y Hy. unfold gF, s'. st. rewrite !upd_other by exact Hy. reflexivity.
+      - unfold gF, s'. st. rewrite !upd_same, Fs. cbn [o2n]. lia. }
+    assert (P : sumf (gP s') progs = sumf (gP s) progs) by reflexivity.
+    assert (C : gC s' = (2 * length progs)%nat) by (unfold gC, s'; st; apply mk_cur_len).
+    assert (C0 : gC s = 0%nat) by (unfold gC, gC_of; rewrite Cu; reflexivity).
+    rewrite P, C, C0. assert (L : lclosed s' = lclosed s) by reflexivity. assert (D : done s' = done s) by reflexivity. rewrite L, D. lia.
   - destruct (cur s) as [[l pend]|] eqn:Cu; [|discriminate].
     destruct (mem p0 pend && is_none (vslot s p0)) eqn:G; [|discriminate]. apply andb_true_iff in G as [G1 G2].
     apply mem_In in G1. destruct (vslot s p0) eqn:Vs; [discriminate|].
     destruct (ICu _ _ eq_refl) as [Hne [Hnd [Hsub Hfl]]]. inv_step H.
-    pose proof (sumf_change (gP s) (gP (mkS (rem s) (fslot s) (fclosed s) (mk_cur l (rm p0 pend)) (lclosed s) (upd (vslot s) p0 (Some l)) (processed s) (vclosed s) (done s))) progs p0 progs_nodup (Hsub _ G1)) as S.
-    unfold gP at 1 3 4 in S. cbn in S. rewrite !upd_same, Vs in S. cbn in S.
-    assert (E : forall x0, x0 <> p0 -> gP (mkS (rem s) (fslot s) (fclosed s) (mk_cur l (rm p0 pend)) (lclosed s) (upd (vslot s) p0 (Some l)) (processed s) (vclosed s) (done s)) x0 = gP s x0).
-    { intros y Hy. unfold gP. cbn. rewrite !upd_other by exact Hy. reflexivity. }
-    specialize (S E). unfold gC. cbn. rewrite Cu.
-    pose proof (rm_length p0 pend Hnd G1) as L.
-    assert (C : match mk_cur l (rm p0 pend) with Some (_, pend0) => (2 * length pend0)%nat | None => 0%nat end = (2 * length (rm p0 pend))%nat).
-    { destruct (rm p0 pend); reflexivity. }
-    rewrite C. unfold gF. cbn. fold (gF s). lia.
+    match goal with |- (sumf (gF ?s1) _ + _ + _ + _ + _ < _)%nat => set (s' := s1) end.
+    assert (S : sumf (gF s') files = sumf (gF s) files) by reflexivity.
+    assert (P : (sumf (gP s') progs = sumf (gP s) progs + 1)%nat).
+    { apply (sum_inc _ _ _ p0); auto.
+      - intros y Hy. unfold gP, s'. st. rewrite !upd_other by exact Hy. reflexivity.
+      - unfold gP, s'. st. rewrite !upd_same, Vs. cbn [o2n]. lia. }
+    assert (C : gC s' = (2 * length (rm p0 pend))%nat) by (unfold gC, s'; st; apply mk_cur_len).
+    assert (C0 : gC s = (2 * length pend)%nat) by (unfold gC, gC_of; rewrite Cu; reflexivity).
+    pose proof (rm_length p0 pend Hnd G1) as RL.
+    rewrite S, P, C, C0. assert (L : lclosed s' = lclosed s) by reflexivity. assert (D : done s' = done s) by reflexivity. rewrite L, D. lia.
   - destruct (vslot s p0) as [l|] eqn:Vs; [|discriminate]. inv_step H. destruct (IVs _ _ Vs) as [Hp0 _].
-    pose proof (sumf_change (gP s) (gP (mkS (rem s) (fslot s) (fclosed s) (cur s) (lclosed s) (upd (vslot s) p0 None) (upd (processed s) p0 (processed s p0 ++ [l])) (vclosed s) (done s))) progs p0 progs_nodup Hp0) as S.
-    unfold gP at 1 3 4 in S. cbn in S. rewrite !upd_same, Vs in S. cbn in S.
-    assert (E : forall x0, x0 <> p0 -> gP (mkS (rem s) (fslot s) (fclosed s) (cur s) (lclosed s) (upd (vslot s) p0 None) (upd (processed s) p0 (processed s p0 ++ [l])) (vclosed s) (done s)) x0 = gP s x0).
-    { intros y Hy. unfold gP. cbn. rewrite !upd_other by exact Hy. reflexivity. }
-    specialize (S E). unfold gC, gF. cbn. fold (gF s). lia.
+    match goal with |- (sumf (gF ?s1) _ + _ + _ + _ + _ < _)%nat => set (s' := s1) end.
+    assert (S : sumf (gF s') files = sumf (gF s) files) by reflexivity.
+    assert (P : (sumf (gP s') progs + 1 = sumf (gP s) progs)%nat).
+    { apply (sum_dec _ _ _ p0); auto.
+      - intros y Hy. unfold gP, s'. st. rewrite !upd_other by exact Hy. reflexivity.
+      - unfold gP, s'. st. rewrite !upd_same, Vs. cbn [o2n]. lia. }
+    assert (C : gC s' = gC s) by reflexivity.
+    rewrite S, C. assert (L : lclosed s' = lclosed s) by reflexivity. assert (D : done s' = done s) by reflexivity. rewrite L, D. lia.
   - destruct (rem s f) eqn:R; [|discriminate]. destruct (fslot s f) eqn:Fs; [discriminate|].
     destruct (mem f files && negb (fclosed s f)) eqn:G; [|discriminate]. apply andb_true_iff in G as [G1 G2].
     apply mem_In in G1. apply negb_true_iff in G2. inv_step H.
-    pose proof (sumf_change (gF s) (gF (mkS (rem s) (fslot s) (upd (fclosed s) f true) (cur s) (lclosed s) (vslot s) (processed s) (vclosed s) (done s))) files f files_nodup G1) as S.
-    unfold gF at 1 3 4 in S. cbn in S. rewrite !upd_same, R, Fs, G2 in S. cbn in S.
-    assert (E : forall x0, x0 <> f -> gF (mkS (rem s) (fslot s) (upd (fclosed s) f true) (cur s) (lclosed s) (vslot s) (processed s) (vclosed s) (done s)) x0 = gF s x0).
-    { intros y Hy. unfold gF. cbn. rewrite !upd_other by exact Hy. reflexivity. }
-    specialize (S E). unfold gC, gP. cbn. fold (gP s). lia.
+    match goal with |- (sumf (gF ?s1) _ + _ + _ + _ + _ < _)%nat => set (s' := s1) end.
+    assert (S : (sumf (gF s') files + 1 = sumf (gF s) files)%nat).
+    { apply (sum_dec _ _ _ f); auto.
+      - intros y Hy. unfold gF, s'. st. rewrite !upd_other by exact Hy. reflexivity.
+      - unfold gF, s'. st. rewrite !upd_same, R, Fs, G2. cbn [length o2n b2n]. lia. }
+    assert (P : sumf (gP s') progs = sumf (gP s) progs) by reflexivity.
+    assert (C : gC s' = gC s) by reflexivity.
+    rewrite P, C. assert (L : lclosed s' = lclosed s) by reflexivity. assert (D : done s' = done s) by reflexivity. rewrite L, D. lia.
   - destruct (forallb (fclosed s) files && negb (lclosed s)) eqn:G; [|discriminate]. apply andb_true_iff in G as [G1 G2].
-    apply negb_true_iff in G2. inv_step H. unfold gF, gP, gC. cbn. rewrite G2. cbn. lia.
+    apply negb_true_iff in G2. inv_step H.
+    match goal with |- (sumf (gF ?s1) _ + _ + _ + _ + _ < _)%nat => set (s' := s1) end.
+    assert (S : sumf (gF s') files = sumf (gF s) files) by reflexivity.
+    assert (P : sumf (gP s') progs = sumf (gP s) progs) by reflexivity.
+    assert (C : gC s' = gC s) by reflexivity.
+    rewrite S, P, C. assert (L : lclosed s' = true) by reflexivity. assert (D : done s' = done s) by reflexivity. rewrite L, D, G2. cbn [b2n]. lia.
   - destruct (lclosed s && is_none (cur s) && mem p0 progs && negb (vclosed s p0)) eqn:G; [|discriminate].
     apply andb_true_iff in G as [G G4]. apply andb_true_iff in G as [G G3]. apply mem_In in G3. apply negb_true_iff in G4.
     inv_step H.
-    pose proof (sumf_change (gP s) (gP (mkS (rem s) (fslot s) (fclosed s) (cur s) (lclosed s) (vslot s) (processed s) (upd (vclosed s) p0 true) (done s))) progs p0 progs_nodup G3) as S.
-    unfold gP at 1 3 4 in S. cbn in S. rewrite !upd_same, G4 in S. cbn in S.
-    assert (E : forall x0, x0 <> p0 -> gP (mkS (rem s) (fslot s) (fclosed s) (cur s) (lclosed s) (vslot s) (processed s) (upd (vclosed s) p0 true) (done s)) x0 = gP s x0).
-    { intros y Hy. unfold gP. cbn. rewrite !upd_other by exact Hy. reflexivity. }
-    specialize (S E). unfold gC, gF. cbn. fold (gF s). lia.
+    match goal with |- (sumf (gF ?s1) _ + _ + _ + _ + _ < _)%nat => set (s' := s1) end.
+    assert (S : sumf (gF s') files = sumf (gF s) files) by reflexivity.
+    assert (P : (sumf (gP s') progs + 1 = sumf (gP s) progs)%nat).
+    { apply (sum_dec _ _ _ p0); auto.
+      - intros y Hy. unfold gP, s'. st. rewrite !upd_other by exact Hy. reflexivity.
+      - unfold gP, s'. st. rewrite !upd_same, G4. cbn [b2n]. lia. }
+    assert (C : gC s' = gC s) by reflexivity.
+    rewrite S, C. assert (L : lclosed s' = lclosed s) by reflexivity. assert (D : done s' = done s) by reflexivity. rewrite L, D. lia.
   - destruct (forallb (vclosed s) progs && forallb (fun p => is_none (vslot s p)) progs && lclosed s && negb (done s)) eqn:G; [|discriminate].
-    apply andb_true_iff in G as [G G4]. apply negb_true_iff in G4. inv_step H. unfold gF, gP, gC. cbn. rewrite G4. cbn. lia.
+    apply andb_true_iff in G as [G G4]. apply negb_true_iff in G4. inv_step H.
+    match goal with |- (sumf (gF ?s1) _ + _ + _ + _ + _ < _)%nat => set (s' := s1) end.
+    assert (S : sumf (gF s') files = sumf (gF s) files) by reflexivity.
+    assert (P : sumf (gP s') progs = sumf (gP s) progs) by reflexivity.
+    assert (C : gC s' = gC s) by reflexivity.
+    rewrite S, P, C. assert (L : lclosed s' = lclosed s) by reflexivity. assert (D : done s' = true) by reflexivity. rewrite L, D, G4. cbn [b2n]. lia.
 Qed.
 
 (* ---- progress: the only stuck reachable state is Done ---- *)
@@ -318,7 +396,7 @@ Proof.
   { apply find_some in F1 as [Hp Hv]. destruct (vslot s p) eqn:Vs; [|discriminate].
     exists (Process p). cbn. rewrite Vs. eauto. }
   assert (V : forall p, In p progs -> vslot s p = None).
-  { intros p Hp. pose proof (find_none _ _ F1 p Hp) as X. destruct (vslot s p); [discriminate|reflexivity]. }
+  { intros p Hp. pose proof (find_none _ _ F1 p Hp) as X. cbn beta in X. destruct (vslot s p); cbn in X; [discriminate|reflexivity]. }
   destruct (cur s) as [[l pend]|] eqn:Cu.
   { destruct (ICu _ _ eq_refl) as [Hne [Hnd [Hsub _]]]. destruct pend as [|p pend]; [congruence|].
     exists (FanOut p). cbn. rewrite Cu. cbn [mem existsb]. rewrite N.eqb_refl. cbn.
@@ -327,14 +405,14 @@ Proof.
   { apply find_some in F2 as [Hf Hv]. destruct (fslot s f) eqn:Fs; [|discriminate].
     exists (Forward f). cbn. rewrite Fs, Cu. eauto. }
   assert (FS : forall f, In f files -> fslot s f = None).
-  { intros f Hf. pose proof (find_none _ _ F2 f Hf) as X. destruct (fslot s f); [discriminate|reflexivity]. }
+  { intros f Hf. pose proof (find_none _ _ F2 f Hf) as X. cbn beta in X. destruct (fslot s f); cbn in X; [discriminate|reflexivity]. }
   destruct (find (fun f => negb (fclosed s f)) files) as [f|] eqn:F3.
   { apply find_some in F3 as [Hf Hv]. assert (M : mem f files = true) by (apply mem_In; exact Hf).
     destruct (rem s f) as [|x r] eqn:R.
     - exists (CloseStream f). cbn. rewrite R, (FS f Hf), M, Hv. cbn. eauto.
     - exists (Emit f). cbn. rewrite R, (FS f Hf), M, Hv. cbn. eauto. }
   assert (FC : forallb (fclosed s) files = true).
-  { apply forallb_forall. intros f Hf. pose proof (find_none _ _ F3 f Hf) as X. destruct (fclosed s f); [reflexivity|discriminate]. }
+  { apply forallb_forall. intros f Hf. pose proof (find_none _ _ F3 f Hf) as X. cbn beta in X. destruct (fclosed s f); cbn in X; [reflexivity|discriminate]. }
   destruct (lclosed s) eqn:Lc.
   2: { exists CloseLines. cbn. rewrite FC, Lc. cbn. eauto. }
   destruct (find (fun p => negb (vclosed s p)) progs) as [p|] eqn:F4.
@@ -342,7 +420,7 @@ Proof.
     exists (CloseVM p). cbn. rewrite Lc, Cu, M, Hv. cbn. eauto. }
   exists Done. cbn.
   assert (VC : forallb (vclosed s) progs = true).
-  { apply forallb_forall. intros p Hp. pose proof (find_none _ _ F4 p Hp) as X. destruct (vclosed s p); [reflexivity|discriminate]. }
+  { apply forallb_forall. intros p Hp. pose proof (find_none _ _ F4 p Hp) as X. cbn beta in X. destruct (vclosed s p); cbn in X; [reflexivity|discriminate]. }
   assert (VN : forallb (fun p => is_none (vslot s p)) progs = true).
   { apply forallb_forall. intros p Hp. rewrite (V p Hp). reflexivity. }
   rewrite VC, VN, Lc, Hd. cbn. eauto.
